@@ -116,7 +116,7 @@ def nextest_config(sc, profile):
     lines.append('slow-timeout = { period = "300ms", terminate-after = 2, grace-period = "%dms" }' % sc.get("grace_ms", 100))
     lines.append('leak-timeout = "150ms"')
     if via.get("threads", "config") == "config":
-        lines.append(f'test-threads = {sc["threads"]}')
+        lines.append(f'test-threads = {threads_text(sc)}')
     else:
         lines.append(f'test-threads = {8 if sc["threads"] == 1 else 1}')   # decoy
     ff = sc["failfast"]
@@ -145,11 +145,28 @@ def nextest_config(sc, profile):
     return "\n".join(lines) + "\n"
 
 
+def ncpu():
+    """std::thread::available_parallelism as nextest sees it: scheduler affinity capped by the cgroup quota"""
+    n = len(os.sched_getaffinity(0))
+    try:
+        q, per = open("/sys/fs/cgroup/cpu.max").read().split()
+        if q != "max":
+            n = max(1, min(n, -(-int(q) // int(per))))
+    except (OSError, ValueError):
+        pass
+    return n
+
+
+def threads_text(sc):
+    """how the thread count is written: as a number, or as the documented negative form (num-cpus minus n, at least 1)"""
+    return str(sc.get("threads_spelling", sc["threads"]))
+
+
 def env_for(sc):
     env = {}
     via = sc.get("via") or {}
     if via.get("threads") == "env":
-        env["NEXTEST_TEST_THREADS"] = str(sc["threads"])
+        env["NEXTEST_TEST_THREADS"] = threads_text(sc)
     if via.get("retries") == "env":
         env["NEXTEST_RETRIES"] = str(sc["retries"])
     if sc.get("no_capture"):
@@ -169,7 +186,7 @@ def cli_args(sc, profile):
         a += [sc["filter"]]
     via = sc.get("via") or {}
     if via.get("threads") == "cli":
-        a += ["--test-threads", str(sc["threads"])]
+        a += ["--test-threads=" + threads_text(sc)]
     if via.get("failfast") == "cli":
         a += {"ff": ["--fail-fast"], "noff": ["--no-fail-fast"], "maxfail2": ["--max-fail", "2"]}[sc["failfast"]]
     if via.get("retries") == "cli":
@@ -724,6 +741,18 @@ def directed(prop):
         out.append(dict(tests=tests, retries=1, delay_ms=1500, backoff="fixed", failfast="noff", threads=2, filter=None,
                         run_ignored="default", sigint_at=0.6, priorities=None, groups=None,
                         retry_only="t00_a"))
+    if prop in ("C08", "C14"):
+        # negative thread counts: "num-cpus minus n, but at least one" -- n = num-cpus gives ONE thread (slot 0,
+        # tests one at a time), n = num-cpus - 2 gives two; from the config, the command line and the environment
+        n = ncpu()
+        for spell, eff, via in ((f"-{n}", 1, "config"), (f"-{n}", 1, "cli"), (f"-{n}", 1, "env"), (f"-{n + 3}", 1, "cli"),
+                                (f"-{max(n - 2, 0)}", 2 if n > 2 else n, "env")):
+            tests = [dict(bin=b, name=f"t{i:02d}_n", ignored=False, attempts=[{"sleep": 0.15, "exit": 0}],
+                          expect=["pass"], mode="pass")
+                     for i, b in enumerate(["alpha::t1", "alpha::t2", "beta::t1", "beta::t2", "alpha::t1"])]
+            out.append(dict(tests=tests, retries=0, delay_ms=0, backoff="fixed", failfast="noff", threads=eff,
+                            threads_spelling=spell, filter=None, run_ignored="default", sigint_at=None, priorities=None,
+                            groups=None, via=dict(threads=via, failfast="config", retries="config")))
     if prop in ("C10", "C09"):
         # a non-signal cancellation that begins while a unit is in the grace period of its timeout
         # termination: the unit is still left alone (it ignores SIGTERM and ends by itself inside the grace period)
